@@ -20,6 +20,18 @@ def run(v, tier, rng):
                 head = [("config", "FORMAT", ("str", b"WCOFF")), ("config", "BITS", ("num", 32)), ("config", "FILE", ("str", b"t.nas"))]
                 prog = head + (g + body if before else body + g)
                 cs.append({"prog": prog, "flat": prog[1:], "globals": list(sub), "labels": labs, "file": b"t.nas", "dup": False, "longfile": False, "addr": label_offsets(body)})
+    # repeated names in every position of one or two GLOBAL statements (always present, not left to the random draw)
+    labs4 = ["_a", "_bb", "_ccccccccc", "_d"]
+    body4 = []
+    for k, l in enumerate(labs4):
+        body4 += [("label", l), ("mn", "DB", [A.num(k)] * (k + 1))]
+    head4 = [("config", "FORMAT", ("str", b"WCOFF")), ("config", "BITS", ("num", 32)), ("config", "FILE", ("str", b"d.nas"))]
+    for stmts in ([["_a", "_bb"], ["_bb", "_ccccccccc", "_d"]], [["_a", "_a", "_bb"]], [["_a", "_bb", "_a"]], [["_a", "_bb", "_a", "_d"]], [["_a", "_bb"], ["_a"]],
+                  [["_a", "_bb"], ["_a", "_d"]], [["_d", "_a"], ["_bb", "_d", "_ccccccccc"]], [["_a"], ["_a"], ["_a", "_bb"]], [["_x1", "_a", "_x1", "_bb"]]):
+        for before in (True, False):
+            g = [("global", list(x)) for x in stmts]
+            prog = head4 + (g + body4 if before else body4 + g)
+            cs.append({"prog": prog, "flat": prog[1:], "globals": [n for x in stmts for n in x], "labels": labs4, "file": b"d.nas", "dup": True, "longfile": False, "addr": label_offsets(body4)})
     cases = []
     for i, c in enumerate(cs):
         cases.append({"id": "o%d" % i, "srcs": [A.p_program(c["prog"])]})
